@@ -112,7 +112,7 @@ func init() {
 		"strings.Index":      ext۰strings۰Index,
 		"strings.IndexByte":  ext۰strings۰IndexByte,
 		"strings.ToLower":    func(fr *frame, a []value) value { return strings.ToLower(concStr(a[0], "strings.ToLower")) },
-		"strings.TrimSpace":  func(fr *frame, a []value) value { return strings.TrimSpace(concStr(a[0], "strings.TrimSpace")) },
+		"strings.TrimSpace":  ext۰strings۰TrimSpace,
 
 		"internal/bytealg.IndexByteString": ext۰strings۰IndexByte,
 		"internal/bytealg.IndexByte":       ext۰bytes۰IndexByte,
@@ -512,18 +512,40 @@ func ext۰unicode۰Is(fr *frame, args []value) value {
 
 // ---- regexp (native for concrete operands)
 
-type nativeRegexp struct{ re *regexp.Regexp }
+// nativeRegexp: a compiled pattern (re), or an accepted symbolic pattern (sym).
+type nativeRegexp struct {
+	re  *regexp.Regexp
+	sym value
+}
+
+func (n nativeRegexp) key() string {
+	if n.re != nil {
+		return n.re.String()
+	}
+	k := "sym:"
+	for _, b := range strBytes(n.sym) {
+		k += termOf(b).String() + ","
+	}
+	return k
+}
 
 func ext۰regexp۰Compile(fr *frame, args []value) value {
 	pat, ok := args[0].(string)
 	if !ok {
-		panic(abortPath{"inconclusive", "regexp.Compile on symbolic pattern (regexp is environment)"})
+		// regexp is environment: whether a symbolic pattern compiles is a free
+		// choice (both outcomes are explored); its matches are uninterpreted
+		fr.i.ps.usedUF = true
+		if fr.i.choose(2, "regexp.Compile-symbolic") == 0 {
+			cell := value(nativeRegexp{sym: args[0]})
+			return tuple{&cell, iface{}}
+		}
+		return tuple{(*value)(nil), errorValue(fr, "error parsing regexp: (symbolic pattern)")}
 	}
 	re, err := regexp.Compile(pat)
 	if err != nil {
 		return tuple{(*value)(nil), errorValue(fr, err.Error())}
 	}
-	cell := value(nativeRegexp{re})
+	cell := value(nativeRegexp{re: re})
 	return tuple{&cell, iface{}}
 }
 
@@ -532,13 +554,14 @@ func ext۰regexp۰Match(fr *frame, args []value) value {
 	if p == nil {
 		panic(runtimePanic(fr.i, "invalid memory address or nil pointer dereference"))
 	}
-	re := (*p).(nativeRegexp).re
+	nre := (*p).(nativeRegexp)
+	re := nre.re
 	b, ok := bytesConcrete(args[1].([]value))
-	if !ok {
+	if !ok || re == nil {
 		// regexp is environment: the verdict on a symbolic subject is an
 		// uninterpreted boolean REm(pattern, subject), the same for the same
 		// (pattern, subject) on one path.
-		key := re.String() + "|"
+		key := nre.key() + "|"
 		for _, x := range args[1].([]value) {
 			key += termOf(x).String() + ","
 		}
@@ -557,7 +580,11 @@ func ext۰regexp۰Match(fr *frame, args []value) value {
 }
 
 func ext۰regexp۰String(fr *frame, args []value) value {
-	return (*args[0].(*value)).(nativeRegexp).re.String()
+	n := (*args[0].(*value)).(nativeRegexp)
+	if n.re == nil {
+		return n.sym
+	}
+	return n.re.String()
 }
 
 // ---- sort
@@ -833,4 +860,61 @@ func ext۰sort۰Ints(fr *frame, args []value) value {
 		}
 	}
 	return nil
+}
+
+// unicode.IsSpace as a term over a 32-bit rune.
+func isSpaceTerm(r *smt.Term) *smt.Term {
+	c := func(v uint64) *smt.Term { return smt.BVC(32, v) }
+	rng := func(lo, hi uint64) *smt.Term { return smt.And(smt.ULe(c(lo), r), smt.ULe(r, c(hi))) }
+	return smt.Or(rng(9, 13), smt.Eq(r, c(0x20)), smt.Eq(r, c(0x85)), smt.Eq(r, c(0xA0)), smt.Eq(r, c(0x1680)),
+		rng(0x2000, 0x200a), smt.Eq(r, c(0x2028)), smt.Eq(r, c(0x2029)), smt.Eq(r, c(0x202f)), smt.Eq(r, c(0x205f)), smt.Eq(r, c(0x3000)))
+}
+
+func ext۰strings۰TrimSpace(fr *frame, args []value) value {
+	if s, ok := args[0].(string); ok {
+		return strings.TrimSpace(s)
+	}
+	b := strBytes(args[0])
+	start := 0
+	for start < len(b) {
+		r, w := fr.i.decodeRune(b[start:])
+		t := termOf(r)
+		if w == 1 {
+			if c, ok := r.(int32); ok && c == runeError {
+				break // ill-formed byte: not a space
+			}
+		}
+		if !fr.i.decide(isSpaceTerm(t), "TrimSpace-lead") {
+			break
+		}
+		start += w
+	}
+	end := len(b)
+	for end > start {
+		// last rune: scan back to a rune start (at most 4 bytes)
+		k := end - 1
+		for k > start && end-k < 4 {
+			if c, ok := b[k].(uint8); ok && (c&0xC0) != 0x80 {
+				break
+			}
+			if _, ok := b[k].(uint8); !ok && !fr.i.decide(smt.Eq(smt.BVAnd(termOf(b[k]), smt.BVC(8, 0xC0)), smt.BVC(8, 0x80)), "TrimSpace-cont") {
+				break
+			}
+			k--
+		}
+		r, w := fr.i.decodeRune(b[k:end])
+		if k+w != end {
+			// the tail is not one well-formed rune: only its last byte is considered
+			k = end - 1
+			r, w = fr.i.decodeRune(b[k:end])
+		}
+		if c, ok := r.(int32); ok && c == runeError && w == 1 {
+			break
+		}
+		if !fr.i.decide(isSpaceTerm(termOf(r)), "TrimSpace-trail") {
+			break
+		}
+		end = k
+	}
+	return mkStr(b[start:end])
 }
